@@ -183,7 +183,7 @@ def gmrfDrawRows (bc : C20.BC) (dim dRows : Nat) : Nat :=
 /-- Families by the shape their `_sample` returns. -/
 inductive Family
   | gaussian | lognormal | normal | gamma | invgamma | beta | laplace | uniform | cauchy | mhn
-  | gmrfZero | gmrfNeumann | gmrfPeriodic
+  | gmrfZero | gmrfNeumann | gmrfPeriodic | custom
   deriving DecidableEq, Repr
 
 def Family.ofString : String → Option Family
@@ -191,7 +191,7 @@ def Family.ofString : String → Option Family
   | "gamma" => some .gamma | "invgamma" => some .invgamma | "beta" => some .beta
   | "laplace" => some .laplace | "uniform" => some .uniform | "cauchy" => some .cauchy
   | "mhn" => some .mhn | "gmrfZero" => some .gmrfZero | "gmrfNeumann" => some .gmrfNeumann
-  | "gmrfPeriodic" => some .gmrfPeriodic | _ => none
+  | "gmrfPeriodic" => some .gmrfPeriodic | "custom" => some .custom | _ => none
 
 
 /-! ## 3. Univariate (iid-component) families: generator plumbing and closed-form log-densities -/
@@ -308,6 +308,15 @@ def ngAccept (β γ m t : RExpr) : RExpr :=
 
 end Mhn
 
+/-! ## 4b. UserDefinedDistribution -/
+
+/-- `UserDefinedDistribution._sample`: the user's `sample_func` is called `N` times; `calls` lists the value each
+    call returned *at the time it returned* (for `N > 1` the code copies it into its column immediately:
+    `out[:, i] = self.sample_func()`; for `N = 1` it is flattened).  Row `j` of the result is component `j`. -/
+def userDefinedSample (dim N : Nat) (calls : List Vec) : Option Mat :=
+  if calls.length ≠ N ∨ N = 0 ∨ !(calls.all (fun v => v.length == dim)) then none
+  else some (transposeN dim calls)
+
 /-! ## 5. `Distribution.sample`: refusal and wrapping -/
 
 /-- shape of what `_sample` returned (a numpy array of 1 or 2 axes) -/
@@ -345,6 +354,7 @@ def rawShape (fam : Family) (dim N : Nat) : Raw :=
   match fam with
   | .mhn => .d1 N
   | .gmrfZero => if N = 1 then .d1 dim else .d2 dim N
+  | .custom => if N = 1 then .d1 dim else .d2 dim N      -- `sample_func().flatten()` / `out = zeros((dim, N))`
   | .gmrfNeumann | .gmrfPeriodic => if N = 1 then .d2 dim dim else .d2 dim N
   | _ => .d2 dim N
 
